@@ -1960,6 +1960,18 @@ def replace_nested_loops_with_set_list_comp(source: str) -> str:
             if _is_read_after_loop(bound_names, outermost_for, root):
                 continue
 
+            # The container that is extended is looked up in every iteration of the loop, but only
+            # once, before the first iteration, in the rewritten call: it may neither depend on the
+            # loop variables, nor do anything but a lookup, nor be used by the loop itself (extend()
+            # would consume a generator that reads the list it is appending to).
+            receiver = m.outer_container_add_to.value
+            if (
+                _names_in(receiver) & bound_names
+                or core.has_side_effect(receiver)
+                or _mentions_code_of(receiver, m.expression, *generators)
+            ):
+                continue
+
             try:
                 new_loop_variable_name = next(unused_variable_name_iterator)
             except StopIteration:
